@@ -592,7 +592,7 @@ class C10(C.Check):
         self.cases = corpus + gen_cases(ctx, n)
         self.obs = [run_case(c) for c in self.cases]
         checks = [coq_check(c, o) for c, o in zip(self.cases, self.obs)]
-        bad = C.eval_cases(self.prop, "corr", HEADER, checks, shard=60 if ctx.quick else 200)
+        bad = C.eval_cases(self.prop, "corr", HEADER, checks, shard=60 if ctx.quick else 200, jobs=5)
         for i in bad[:4]:
             res.add_broken("correspondence", "%s vs coq/C10/Model.v" % signature(self.cases[i])["fn"],
                            {"case": self.cases[i], "observed": {k: v for k, v in self.obs[i].items() if k in ("error", "message", "out", "specs", "pindex", "nbin")}})
